@@ -156,7 +156,10 @@ func runC19(p *Prog, r *Report) {
 		}
 		// guarded by the descriptor checks: field != nil, cardinality == optional, kind == bytes
 		as := atomsAt(sets[0].Block())
-		nonNil := hasAtom(as, func(a Atom) bool { m, isNil := nilTestOn(a, func(v ssa.Value) bool { return sameVal(v, fld) }); return m && !isNil })
+		nonNil := hasAtom(as, func(a Atom) bool {
+			m, isNil := nilTestOn(a, func(v ssa.Value) bool { return sameVal(v, fld) })
+			return m && !isNil
+		})
 		card, kind := false, false
 		for _, a := range as {
 			if a.Op == token.EQL {
